@@ -23,7 +23,10 @@ func genGrowth(seed uint64, thorough bool) *Scenario {
 	scn.SchedSeed = g.Uint64()
 	N := 40
 	if thorough {
-		N = pick(g, 100, 250, 500)
+		N = pick(g, 100, 150, 250) // (8N requests per run; the watchdog allows a worker twice its budget)
+		if scn.Backend == "fs" {
+			N = 100
+		}
 	}
 	U := 1 + g.IntN(4)
 	purge := g.chance(35)
